@@ -15,6 +15,10 @@ RULE = ("px rows with a clip mask: every blend mode x pipeline x blit kind; (a) 
         "values lie between those two (+-1); masks mixed within one SIMD batch; non-trivial = mask has a 0 and a non-0 byte")
 
 KNOWN_MODES = MASK_ZERO_WRITES
+# blend functions that are not affine in the source: blend(m * src, dst) is then not on the segment between dst and
+# blend(src, dst)
+NONAFFINE_MODES = {"Overlay", "Darken", "Lighten", "ColorDodge", "ColorBurn", "HardLight", "SoftLight", "Difference",
+                   "Hue", "Saturation", "Color", "Luminosity"}
 
 
 def gen_cases(rng, tier):
@@ -106,6 +110,8 @@ def known_class(suite, args, out, what):
     c = decode(strip(args))
     if c["has_mask"] and MODES[c["mode"]] in KNOWN_MODES:
         return "C10-mask-scales-source"
+    if c["has_mask"] and MODES[c["mode"]] in NONAFFINE_MODES and "is not between destination" in what:
+        return "C10-mask-intermediate-nonaffine"
     # opaque SourceOver is reduced to Source only when there is no mask: under partial coverage the two
     # programs (lerp vs pre-scale) round differently by at most 1
     if c["has_mask"] and MODES[c["mode"]] == "SourceOver" and c["color"][3] == 255 and c["kind"] != 0 \
